@@ -49,6 +49,7 @@ func runC09(c *core.Ctx) {
 	orderRule(c)
 	flowRule(c)
 	fanoutRule(c)
+	mechanicsRules(c)
 }
 
 // prioRule reads the table from init.
